@@ -1,5 +1,6 @@
 import WowVerif.Model.Mpq
 import WowVerif.Model.C01Bet
+import WowVerif.Model.C01Het
 import WowVerif.Model.Dispatch18b
 namespace Wv.Drv
 open Wv Wv.Mpq
@@ -44,6 +45,21 @@ def c01 (codec : Codec) (toks : List String) : Option (Codec × String) :=
       match parseHeader a with
       | some h => pure (codec, s!"hdr={h.headerSize} size={h.archiveSize} ver={h.version} shift={h.shift} hash={h.hashPos}/{h.hashCount} block={h.blockPos}/{h.blockCount}")
       | none => pure (codec, "err header")
+  | ["c01het", hashes] => do
+      -- the builder's extended hash table for files with these 64-bit name hashes: slot bytes and packed index array
+      let hs ← (if hashes == "-" then some [] else (hashes.splitOn ",").mapM String.toNat?)
+      match Het.build hs with
+      | some t => pure (codec, s!"{hexOrDash (t.slots.map UInt8.ofNat)} {hexOrDash (Het.idxBytes (Bet.bitsNeeded hs.length) t)}")
+      | none => pure (codec, "full")
+  | ["c01hetfind", hashes, q] => do
+      -- candidates of a lookup, and the candidate confirmed by the 64-bit hashes
+      let hs ← (if hashes == "-" then some [] else (hashes.splitOn ",").mapM String.toNat?)
+      let full ← q.toNat?
+      match Het.build hs with
+      | some t =>
+        let cs := Het.lookup t hs.length full
+        pure (codec, s!"{",".intercalate (cs.map toString)} -> {match Het.resolve hs full cs with | some k => toString k | none => "none"}")
+      | none => pure (codec, "full")
   | ["c01bet", nflags, rows] => do
       -- the builder's extended block table for these rows: chosen widths and the packed table
       let rs ← (if rows == "-" then some [] else (rows.splitOn ";").mapM rowOfString)
